@@ -1,6 +1,7 @@
 import Tmv.Model.SignCons
 import Tmv.Lemmas.Sign
 import Tmv.Lemmas.ConsSign
+import Tmv.Lemmas.ConsChain
 /-! Lemmas for the composition `Tmv.Node04`: whatever the consensus model, the WAL and the crashes
 do, the signer component only ever moves by events of the signer machine; and the abstract signer
 inside `Tmv.Cons` agrees with the real one call by call. -/
@@ -264,7 +265,7 @@ theorem sign_refines {e : Env} (he : EnvOK e) {c : Cons.Cfg} (hc : c.checkHRS = 
     (t : Int) (q : Req) (hq : e.reqOf t o = some q) :
     (∀ s', Cons.sign c s round code p = some s' →
       ∃ disk' rel' sb sig, call sigOf ⟨disk, disk, .idle, rel⟩ q none = (⟨disk', disk', .idle, rel'⟩, .ok sb sig) ∧
-        s'.lss = e.absLss disk' ∧ Good e disk') ∧
+        s'.lss = e.absLss disk' ∧ Good e disk' ∧ rel'.length = rel.length + 1) ∧
     (Cons.sign c s round code p = none →
       ∃ er, call sigOf ⟨disk, disk, .idle, rel⟩ q none = (⟨disk, disk, .idle, rel⟩, .err er)) := by
   obtain ⟨hst, hqh, hqr⟩ := reqStep_reqOf hq hk
@@ -275,9 +276,9 @@ theorem sign_refines {e : Env} (he : EnvOK e) {c : Cons.Cfg} (hc : c.checkHRS = 
   -- the state a fresh signature leaves behind
   have fresh_ok : checkHRS disk q.h q.r (code : Int) = .fresh →
       ∃ disk' rel' sb' sig, call sigOf ⟨disk, disk, .idle, rel⟩ q none = (⟨disk', disk', .idle, rel'⟩, .ok sb' sig) ∧
-        some (round, code, p) = e.absLss disk' ∧ Good e disk' := by
+        some (round, code, p) = e.absLss disk' ∧ Good e disk' ∧ rel'.length = rel.length + 1 := by
     intro hchk
-    refine ⟨_, _, _, _, call_fresh sigOf disk rel q _ sb hst hchk hsbq, ?_, ?_⟩
+    refine ⟨_, _, _, _, call_fresh sigOf disk rel q _ sb hst hchk hsbq, ?_, ?_, rfl⟩
     · exact (absLss_at he hqh hk hsb hqr rfl rfl).symm
     · exact Or.inr ⟨hqh, o, t, sb, sigOf sb, round, code, p, hk, hsb, hqr, rfl, rfl, rfl⟩
   rcases hg with hlow | ⟨hh, lo, lt, lsb, g, lr, lc, lp, hlk, hlsb, hlr, hlc, hdsb, hdsig⟩
@@ -307,7 +308,7 @@ theorem sign_refines {e : Env} (he : EnvOK e) {c : Cons.Cfg} (hc : c.checkHRS = 
         have hchk : checkHRS disk q.h q.r (lc : Int) = .same :=
           checkHRS_eq_same (by rw [hHRS, hqh, hqr]) hdsb hdsig
         have hts : eqModTs lsb sb = true := (sbOf_eqModTs he hlsb hsb hlk hk).2 rfl
-        refine ⟨disk, ⟨sb, lsb, g⟩ :: rel, lsb, g, ?_, hs, Or.inr ⟨hh, lo, lt, lsb, g, lr, lc, lp, hlk, hlsb, hlr, hlc, hdsb, hdsig⟩⟩
+        refine ⟨disk, ⟨sb, lsb, g⟩ :: rel, lsb, g, ?_, hs, Or.inr ⟨hh, lo, lt, lsb, g, lr, lc, lp, hlk, hlsb, hlr, hlc, hdsb, hdsig⟩, rfl⟩
         rw [call_same sigOf disk rel q _ sb lsb g hst hchk hsbq hdsb hdsig, if_pos hts]
       · rcases hl with hn | ⟨lr', lc', lp', hl', hlt⟩
         · rw [habs] at hn; cases hn
@@ -350,5 +351,74 @@ theorem sign_refines {e : Env} (he : EnvOK e) {c : Cons.Cfg} (hc : c.checkHRS = 
                 rw [call_same sigOf disk rel q _ sb lsb g hst hchk hsbq hdsb hdsig, if_neg hts]
             · cases hn
         · cases hn
+
+/-! ### the agreement chained through a whole step of the consensus model -/
+
+theorem reqOf_none {e : Env} {t : Int} {o : Cons.Output} (h : Cons.sigKey o = none) : e.reqOf t o = none := by
+  cases o <;> simp [Cons.sigKey] at h <;> rfl
+
+theorem reqOf_some {e : Env} {t : Int} {o : Cons.Output} {k : Nat × Nat × Cons.Payload}
+    (h : Cons.sigKey o = some k) : ∃ q, e.reqOf t o = some q := by
+  cases o <;> simp [Cons.sigKey] at h <;> exact ⟨_, rfl⟩
+
+theorem signAll_append (sigOf : SB → Sig) (g : Sign.Cfg Sig) (qs : List Req) (q : Req) :
+    signAll sigOf g (qs ++ [q]) = (call sigOf (signAll sigOf g qs) q none).1 := by
+  simp [signAll, List.foldl_append]
+
+/-- relation kept through a step: the real signer, driven by the requests released so far in this
+step, is idle, `Good`, every call was answered with a signature, and its abstraction is the
+consensus model's `lss` -/
+def StepRel (e : Env) (t : Int) (sigOf : SB → Sig) (sg0 : Sign.Cfg Sig) (out0 : List Cons.Output)
+    (out : List Cons.Output) (lss : Option (Nat × Nat × Cons.Payload)) : Prop :=
+  ∃ disk rel, out0 <+: out ∧
+    signAll sigOf sg0 ((out.drop out0.length).filterMap (e.reqOf t)) = ⟨disk, disk, .idle, rel⟩ ∧
+    Good e disk ∧ lss = e.absLss disk ∧
+    rel.length = sg0.rel.length + ((out.drop out0.length).filterMap (e.reqOf t)).length
+
+theorem stepRel_closed {e : Env} (he : EnvOK e) {c : Cons.Cfg} (hc : c.checkHRS = true) (t : Int)
+    (sigOf : SB → Sig) (sg0 : Sign.Cfg Sig) (out0 : List Cons.Output) :
+    Cons.ChainClosed c (StepRel e t sigOf sg0 out0) := by
+  constructor
+  · intro out lss o ⟨disk, rel, hpre, hsa, hg, hl, hlen⟩ ho
+    refine ⟨disk, rel, hpre.trans (List.prefix_append _ _), ?_, hg, hl, ?_⟩
+    · rw [List.drop_append_of_le_length hpre.length_le, List.filterMap_append]
+      simp [reqOf_none ho, hsa]
+    · rw [List.drop_append_of_le_length hpre.length_le, List.filterMap_append]
+      simp [reqOf_none ho, hlen]
+  · intro s s' r cd p o ⟨disk, rel, hpre, hsa, hg, hl, hlen⟩ hsig ho
+    obtain ⟨q, hq⟩ := reqOf_some (e := e) (t := t) ho
+    obtain ⟨disk', rel', sb, sig, hcall, hl', hg', hlen'⟩ :=
+      (sign_refines he hc sigOf disk rel hg s hl o r cd p ho t q hq).1 s' hsig
+    have hout : s'.out = s.out := (Cons.sign_fields hsig).2.1
+    rw [hout]
+    refine ⟨disk', rel', hpre.trans (List.prefix_append _ _), ?_, hg', hl', ?_⟩
+    · rw [List.drop_append_of_le_length hpre.length_le, List.filterMap_append]
+      simp only [List.filterMap_cons, hq, List.filterMap_nil]
+      rw [signAll_append, hsa, hcall]
+    · rw [List.drop_append_of_le_length hpre.length_le, List.filterMap_append]
+      simp only [List.filterMap_cons, hq, List.filterMap_nil, List.length_append, List.length_singleton]
+      omega
+
+/-- **Refinement of a whole step.** On an idle, `Good` real signer: set the consensus model's
+abstract signer to its abstraction, handle any input (`Cons.step`, which may sign several times
+and drain the node's own messages), put the released requests to the real signer in order. Unless
+the node panicked, EVERY one of them is answered with a signature (the journal grows by exactly
+their number), the real signer is idle and `Good` again, and its abstraction is the abstract
+signer's final state — so re-abstracting before the next input changes nothing. -/
+theorem step_refines {e : Env} (he : EnvOK e) {c : Cons.Cfg} (hc : c.checkHRS = true) (sigOf : SB → Sig)
+    (disk : LSS Sig) (rel : List (Rel Sig)) (hg : Good e disk) (ns : Cons.NodeState) (i : Cons.Input) (t : Int)
+    (hh : (consStep e c ns ⟨disk, disk, .idle, rel⟩ i t).1.halted = false) :
+    ∃ disk' rel', signAll sigOf ⟨disk, disk, .idle, rel⟩ (consStep e c ns ⟨disk, disk, .idle, rel⟩ i t).2 =
+        ⟨disk', disk', .idle, rel'⟩ ∧ Good e disk' ∧
+      (consStep e c ns ⟨disk, disk, .idle, rel⟩ i t).1.lss = e.absLss disk' ∧
+      rel'.length = rel.length + (consStep e c ns ⟨disk, disk, .idle, rel⟩ i t).2.length := by
+  let ns0 : Cons.NodeState := { ns with lss := e.absLss disk }
+  have h0 : ns0.halted = true ∨ StepRel e t sigOf ⟨disk, disk, .idle, rel⟩ ns0.out ns0.out ns0.lss :=
+    Or.inr ⟨disk, rel, List.prefix_refl _, by simp [signAll], hg, rfl, by simp⟩
+  have h1 := Cons.step_chain (stepRel_closed he hc t sigOf ⟨disk, disk, .idle, rel⟩ ns0.out) i h0
+  rcases h1 with h1 | ⟨disk', rel', _, hsa, hg', hl', hlen⟩
+  · have : (consStep e c ns ⟨disk, disk, .idle, rel⟩ i t).1.halted = true := h1
+    rw [hh] at this; cases this
+  · exact ⟨disk', rel', hsa, hg', hl', hlen⟩
 
 end Tmv.Node04
